@@ -114,3 +114,111 @@ Definition demo_ifd_value : gifd :=
 Example C18_written_text_has_these_tokens :
   match tokenize_core 0 (gifd_write [] [] 5 demo_ifd_value 2) with TOk t => map shape_of t | _ => [] end = gtoks [] demo_ifd_value.
 Proof. vm_compute. reflexivity. Qed.
+
+(* ---------- values survive: sequences, tagged structs and tagged unions as well ---------- *)
+From A2L Require Proofs.IfdataFollowProofs.
+Module F := A2L.Proofs.IfdataFollowProofs.
+
+(* The members whose end depends on the token that follows.  [F.conf ftab ty g k]: the value g conforms to the definition ty
+   and may be followed by tokens of the types and texts k - a sequence by something its item type cannot start with
+   ([F.fails_on]), a tagged struct / union by something that is not one of its tags in the declared form ([F.ts_stops]); the items
+   of a tagged struct are taken in the order of the group writer ([F.witems], Writer::add_group) and must regroup to the value.
+   Then the typed parser, started on the tokens the writer prints for g ([F.ftoks]) followed by such tokens, returns the value -
+   every scalar, every item of every sequence, every tagged item under its tag, keyword or block - and stops exactly behind them.
+   ([F.ev] erases line offsets, lines, include attribution and the ids handed out while parsing, nothing else.) *)
+Theorem C18_conforming_content_with_sequences_and_tagged_items_is_read_back : forall ftab f ty g k c, c_fileid c = O ->
+  (ty_depth ty <= f)%nat -> F.conf ftab ty g k ->
+  forall s ts rest, Inv s -> ps_ftab s = ftab -> ps_after s = ts ++ rest -> map shape_of ts = F.ftoks ftab g -> map shape_of rest = k ->
+  exists g' s', parse_ifdata_item f ty c s = (ROk g', s') /\ adv ts s s' /\ F.ev g' = F.ev g.
+Proof. intros ftab f ty g k c Hc Hd Hconf. exact (F.conforming_content_is_read_back_with_follow ftab f ty g k c Hc Hd Hconf). Qed.
+Print Assumptions C18_conforming_content_with_sequences_and_tagged_items_is_read_back.
+
+(* the end of a sequence: in front of a token its item type cannot start with, reading one more item is an error (which the loop
+   of parse_ifdata_item turns into the end of the sequence, the cursor put back) *)
+Theorem C18_what_cannot_start_an_item_is_an_error : forall f ty c k, c_fileid c = O -> (ty_depth ty <= f)%nat -> F.fails_on ty k = true ->
+  forall s rest, Inv s -> ps_after s = rest -> map shape_of rest = k ->
+  exists d s1 ts', parse_ifdata_item f ty c s = (RErr d, s1) /\ adv ts' s s1.
+Proof. intros f ty c k Hc Hd Hf. exact (F.what_cannot_start_a_value_is_an_error f ty c k Hc Hd Hf). Qed.
+Print Assumptions C18_what_cannot_start_an_item_is_an_error.
+
+(* the whole block: content that conforms to the first applicable definition and is followed by the /end of the block is
+   interpreted - the block is marked valid (the [true]) and carries exactly this value as its items *)
+Theorem C18_content_conforming_to_the_first_definition_is_valid : forall ftab sp specs fuel c g k e, c_fileid c = O ->
+  F.conf ftab sp g ((TEnd, e) :: k) ->
+  forall s ts rest, Inv s -> ps_ftab s = ftab -> ps_after s = ts ++ rest -> map shape_of ts = F.ftoks ftab g -> map shape_of rest = (TEnd, e) :: k ->
+  exists g' s', parse_ifdata (sp :: specs) fuel c s = (ROk (Some (make_block g' None (c_line c)), true), s') /\ adv ts s s' /\ F.ev g' = F.ev g.
+Proof. intros ftab sp specs fuel c g k e Hc Hconf. exact (F.conforming_ifdata_is_valid ftab sp specs fuel c g k e Hc Hconf). Qed.
+Print Assumptions C18_content_conforming_to_the_first_definition_is_valid.
+
+(* the premises are met: a struct of an integer and a tagged struct with a keyword item and two blocks of a repeatable tag, each
+   of a byte and a sequence (one of them empty), followed by the /end of the IF_DATA block *)
+Definition demo_spec2 : a2mlty :=
+  TStruct [TUInt; TTaggedStruct [Tagged (bytes_of "A") false false TULong;
+                                 Tagged (bytes_of "BLK") true true (TStruct [TUChar; TSequence TUInt])]].
+Definition demo_tagged2 : list (bytes * list gtitem) :=
+  [(bytes_of "BLK", [GTI None 3 2 1 1 (bytes_of "BLK") (GBlock None 3 [GInt "UChar" 1 9 false; GSequence [GInt "UInt" 1 1 false; GInt "UInt" 1 2 true]]) true;
+                     GTI None 5 3 1 1 (bytes_of "BLK") (GBlock None 5 [GInt "UChar" 1 8 false; GSequence []]) true]);
+   (bytes_of "A", [GTI None 4 0 1 0 (bytes_of "A") (GBlock None 4 [GInt "ULong" 1 7 false]) false])].
+Definition demo_ifd_value2 : gifd := GStruct None 0 [GInt "UInt" 0 5 false; GTaggedStruct demo_tagged2].
+Definition demo_follow2 : list shape := [(TEnd, end_text); (TIdentifier, bytes_of "IF_DATA")].
+
+Ltac conf_steps := repeat first
+  [ apply F.cs_nil | apply F.ca_nil | apply F.ci_nil | apply F.cs_cons | apply F.ca_cons | apply F.ci_cons
+  | apply F.conf_struct | (apply F.conf_sequence; [| repeat constructor; discriminate | reflexivity])
+  | (eapply F.conf_int; reflexivity) ].
+Example C18_conformance_example_with_tagged_items : F.conf [] demo_spec2 demo_ifd_value2 demo_follow2.
+Proof.
+  unfold demo_spec2, demo_ifd_value2. conf_steps.
+  apply F.conf_taggedstruct; [| reflexivity | reflexivity].
+  let w := eval vm_compute in (F.witems demo_tagged2) in change (F.witems demo_tagged2) with w.
+  apply F.ci_cons.
+  { apply (F.cit _ _ _ _ _ _ _ _ (Tagged (bytes_of "BLK") true true (TStruct [TUChar; TSequence TUInt]))
+             (GStruct None 0 [GInt "UChar" 1 9 false; GSequence [GInt "UInt" 1 1 false; GInt "UInt" 1 2 true]]) None 3); [reflexivity | reflexivity | conf_steps]. }
+  apply F.ci_cons.
+  { apply (F.cit _ _ _ _ _ _ _ _ (Tagged (bytes_of "BLK") true true (TStruct [TUChar; TSequence TUInt]))
+             (GStruct None 0 [GInt "UChar" 1 8 false; GSequence []]) None 5); [reflexivity | reflexivity | conf_steps]. }
+  apply F.ci_cons.
+  { apply (F.cit _ _ _ _ _ _ _ _ (Tagged (bytes_of "A") false false TULong) (GInt "ULong" 1 7 false) None 4); [reflexivity | reflexivity | conf_steps]. }
+  apply F.ci_nil.
+Qed.
+
+(* [F.ftoks] is what the byte-level writer prints (the new item A, uid 0, behind the loaded ones): the scanner cuts the written text into exactly these tokens *)
+Example C18_written_text_with_tagged_items_has_these_tokens :
+  match tokenize_core 0 (gifd_write [] [] 6 demo_ifd_value2 2) with TOk t => map shape_of t | _ => [] end = F.ftoks [] demo_ifd_value2.
+Proof. vm_compute. reflexivity. Qed.
+
+(* ---------- values survive: through the text ---------- *)
+From A2L Require Proofs.IfdataTextProofs Proofs.LexUnitsProofs.
+Module T := A2L.Proofs.IfdataTextProofs.
+
+(* GenericIfData::write (Gram/Writer.v gifd_write, with enough fuel for the nesting of the value) produces for a conforming value
+   a text made of white space and exactly the tokens [F.ftoks] ... *)
+Theorem C18_written_text_of_a_conforming_value_is_its_tokens : forall ftab names f ty g k indent, F.conf ftab ty g k -> (T.gdepth g <= f)%nat ->
+  exists us, gifd_write ftab names f g indent = LexUnitsProofs.render us /\ map snd us = F.ftoks ftab g /\
+             Forall (fun u => LexUnitsProofs.ws_text (fst u)) us.
+Proof. intros ftab names f ty g k indent Hc Hd. exact (T.gifd_write_units ftab names f ty g k indent Hc Hd). Qed.
+Print Assumptions C18_written_text_of_a_conforming_value_is_its_tokens.
+
+(* ... so writing the content of an IF_DATA block, scanning the text (closed by /end TAG) and reading it with the typed parser
+   returns the value that was written, and leaves exactly the /end TAG: for every definition, every conforming value (scalars,
+   strings, enums, arrays, structs, sequences, tagged structs and unions, any nesting) whose token texts are well-formed tokens
+   (identifiers that are identifiers; the float texts come from the oracle table) *)
+Theorem C18_written_content_is_read_back_from_its_text : forall ftab names f F' ty g tag indent c,
+  F.conf ftab ty g [(TEnd, end_text); (TIdentifier, tag)] -> (T.gdepth g <= f)%nat -> (ty_depth ty <= F')%nat -> c_fileid c = O ->
+  Forall LexUnitsProofs.token_text (F.ftoks ftab g) -> LexUnitsProofs.ident_text tag ->
+  exists toks g' s',
+    tokenize_core 0 (gifd_write ftab names f g indent ++ bytes_of " /end " ++ tag) = TOk toks /\
+    parse_ifdata_item F' ty c (init_state toks false 1 ftab) = (ROk g', s') /\
+    map shape_of (ps_after s') = [(TEnd, end_text); (TIdentifier, tag)] /\ F.ev g' = F.ev g.
+Proof. intros ftab names f F' ty g tag indent c H1 H2 H3 H4 H5 H6. exact (T.ifdata_content_roundtrip ftab names f F' ty g tag indent c H1 H2 H3 H4 H5 H6). Qed.
+Print Assumptions C18_written_content_is_read_back_from_its_text.
+
+(* the premises are met by the example value *)
+Example C18_text_round_trip_premises :
+  (T.gdepth demo_ifd_value2 <= 6)%nat /\ (ty_depth demo_spec2 <= 5)%nat /\
+  Forall LexUnitsProofs.token_text (F.ftoks [] demo_ifd_value2) /\ LexUnitsProofs.ident_text (bytes_of "IF_DATA").
+Proof.
+  split; [vm_compute; repeat constructor|]. split; [vm_compute; repeat constructor|].
+  split; [apply T.token_texts_ok; vm_compute; reflexivity|].
+  split; [vm_compute; reflexivity|]. split; [repeat constructor | discriminate].
+Qed.
